@@ -17,6 +17,11 @@ CLAIMED = {
          "Generated frame streams are fed to the real frame reader under every 2-cut, byte-wise feed, truncated prefixes (streams <= 400 bytes), every 3-cut (<= 70 bytes), boundary cuts and random partitions; delivered messages, consumed lengths, need-more answers, errors, panics and zero-progress returns are compared with the independent framer's ground truth; head maps are round-tripped through the real Write and Read.",
          "Trusted base: harness/wire framer; the loop replica follows dubbo-getty v1.5.0 handleTCPPackage. Garbage input is only required not to panic or spin.",
          "DESIGN.md §4 C13"),
+ "C04": ("fault_enumeration",
+         "runtime monitor: real TM (WithGlobalTx) in a client child against a scripted fake coordinator; offline decision-table oracle over the coordinator's per-xid request log and the returned value",
+         "Enumerates callback outcome x begin behaviour x second-phase reply sequences (transport failures up to the retry bound, then success/failed result) x retry setting {0,1,2,3} x cancellation point x joined scopes; checks never-both, no decision for joined scopes, decision matches the callback outcome, attempt bound, no retry after a result, and that nil is returned only for an acknowledged commit of a successful business.",
+         "Fake TC on the independent wire codec; transport failure = no reply within the client's 20 s wait or a session reset; quick tier keeps at most one no-reply per sequence and two reset cases per retry setting.",
+         "DESIGN.md §4 C04"),
 }
 
 NOT_YET = "check not implemented yet in this revision of the framework (work in progress; see DESIGN.md §4 for the planned monitor)"
